@@ -32,6 +32,7 @@ import (
 	mcclientset "metacontroller/pkg/client/generated/clientset/internalclientset"
 	mcscheme "metacontroller/pkg/client/generated/clientset/internalclientset/scheme"
 	mclisters "metacontroller/pkg/client/generated/lister/metacontroller/v1alpha1"
+	"metacontroller/pkg/controller/common"
 	dynamicclientset "metacontroller/pkg/dynamic/clientset"
 	dynamicdiscovery "metacontroller/pkg/dynamic/discovery"
 	dynamicinformer "metacontroller/pkg/dynamic/informer"
@@ -73,6 +74,7 @@ func NewBase(relist time.Duration, kinds ...*sim.Kind) *Base {
 	Quiet()
 	vcache.Reset()
 	vcache.ResetTracked()
+	common.VerifResetSSAMemo()
 	all := append(append([]*sim.Kind{}, kinds...), RevisionKind)
 	s := sim.New(all...)
 	b := &Base{Sim: s, Hooks: NewHookRouter(), Rec: &Recorder{}}
